@@ -203,6 +203,21 @@ func usesOf(p *Program, v ssa.Value) []ssa.Instruction {
 				visit(y)
 			case *ssa.FieldAddr:
 				// field access on the T: harmless
+			case *ssa.Call:
+				// argument of a transparent helper: the uses of the corresponding parameter
+				if h := transparentCallee(y); h != nil {
+					followed := false
+					for k, a := range y.Common().Args {
+						if a == x && k < len(h.Params) {
+							visit(h.Params[k])
+							followed = true
+						}
+					}
+					if followed {
+						continue
+					}
+				}
+				out = append(out, ref)
 			default:
 				out = append(out, ref)
 			}
@@ -341,7 +356,7 @@ func ruleC10R3(r *Run) {
 	// truncation in the same critical section, before the call
 	var trunc *ssa.Store
 	for _, fa := range p.fieldAccesses("T") {
-		if fa.Fn == v.fn && fa.Field == "cleanups" && fa.Kind == "write" {
+		if p.within(fa.Fn, v.fn) && fa.Field == "cleanups" && fa.Kind == "write" {
 			trunc = fa.Instr.(*ssa.Store)
 		}
 	}
@@ -455,7 +470,7 @@ func ruleC10R5(r *Run) {
 			// either stored to t.ctx under W (with cancel stored), or cancelled before return while cleaning
 			stored := false
 			for _, fa := range p.fieldAccesses("T") {
-				if fa.Fn == fn && fa.Field == "ctx" && fa.Kind == "write" {
+				if p.within(fa.Fn, fn) && fa.Field == "ctx" && fa.Kind == "write" {
 					st := fa.Instr.(*ssa.Store)
 					if p.same(st.Val, res) && ls[st]["&$t.mu"] == 'W' && dominates(st, ret) {
 						stored = true
@@ -464,7 +479,7 @@ func ruleC10R5(r *Run) {
 			}
 			cancelStored := false
 			for _, fa := range p.fieldAccesses("T") {
-				if fa.Fn == fn && fa.Field == "cancelCtx" && fa.Kind == "write" {
+				if p.within(fa.Fn, fn) && fa.Field == "cancelCtx" && fa.Kind == "write" {
 					st := fa.Instr.(*ssa.Store)
 					if p.same(st.Val, cancelFn) && dominates(st, ret) {
 						cancelStored = true
@@ -494,7 +509,7 @@ func ruleC10R5(r *Run) {
 	r.Floor("returns of the stored/new context in Context", nStored, 2)
 	// fast path read under RLock / W
 	for _, fa := range p.fieldAccesses("T") {
-		if fa.Fn == fn && fa.Field == "ctx" && fa.Kind == "read" {
+		if p.within(fa.Fn, fn) && fa.Field == "ctx" && fa.Kind == "read" {
 			r.Check("(*T).Context#read-locked", fa.Instr.Pos(), ls[fa.Instr]["&$t.mu"] != 0, "t.ctx read under the lock", "t.ctx read without the lock")
 		}
 	}
@@ -580,7 +595,7 @@ func (r *Run) perCaseFields() []string {
 	p := r.P
 	set := map[string]bool{}
 	for _, fa := range p.fieldAccesses("T") {
-		name := p.fnName(fa.Fn)
+		name := p.hostName(fa.Fn)
 		if name == "newT" {
 			continue
 		}
@@ -659,7 +674,7 @@ func ruleC11R1(r *Run) {
 			reset := false
 			zeroStore := func(g *ssa.Function, isT func(ssa.Value) bool, mustDominate ssa.Instruction) bool {
 				for _, fa := range p.fieldAccesses("T") {
-					if fa.Fn != g || fa.Field != f || fa.Kind != "write" {
+					if !p.within(fa.Fn, g) || fa.Field != f || fa.Kind != "write" {
 						continue
 					}
 					st := fa.Instr.(*ssa.Store)
@@ -788,13 +803,24 @@ func isZero(v ssa.Value) bool {
 }
 
 func innermostLoop(in ssa.Instruction) *loopInfo {
-	var best *loopInfo
-	for _, l := range loopsOf(in.Parent()) {
-		if l.Body[in.Block()] && (best == nil || len(l.Body) < len(best.Body)) {
-			best = l
+	for i := 0; i < 6; i++ {
+		var best *loopInfo
+		for _, l := range loopsOf(in.Parent()) {
+			if l.Body[in.Block()] && (best == nil || len(l.Body) < len(best.Body)) {
+				best = l
+			}
 		}
+		if best != nil || activeProg == nil {
+			return best
+		}
+		// inside a transparent helper without a loop of its own: the loop around its call site
+		site := activeProg.helperSite(in.Parent())
+		if site == nil {
+			return nil
+		}
+		in = site
 	}
-	return best
+	return nil
 }
 
 func ruleC11R3(r *Run) {
